@@ -295,13 +295,17 @@ Definition show_session (k : skeleton) (tbl : table) (ops : list sop) : string :
 Definition nl : ascii := ascii_of_nat 10.
 Definition bs : ascii := ascii_of_nat 92.
 
-Fixpoint split_on (c : ascii) (s : string) (cur : string) : list string :=
+Fixpoint split (c : ascii) (s : string) : list string :=
   match s with
-  | EmptyString => [cur]
-  | String ch r => if Ascii.eqb ch c then cur :: split_on c r EmptyString
-                   else split_on c r (cur ++ String ch EmptyString)
+  | EmptyString => [EmptyString]
+  | String ch r =>
+      let l := split c r in
+      if Ascii.eqb ch c then EmptyString :: l
+      else match l with
+           | h :: t => String ch h :: t
+           | [] => [String ch EmptyString]
+           end
   end.
-Definition split (c : ascii) (s : string) : list string := split_on c s EmptyString.
 
 (* harness escaping: \\ \n \t \r *)
 Fixpoint unesc (s : string) : string :=
@@ -411,17 +415,18 @@ Definition parse_code (src : string) : code :=
 Definition field_tag (f : string) : ascii := match f with String c _ => c | EmptyString => " "%char end.
 Definition field_body (f : string) : string := match f with String _ r => unesc r | EmptyString => EmptyString end.
 
-Fixpoint split_first (c : ascii) (s : string) (acc : string) : string * string :=
+Fixpoint split_first (c : ascii) (s : string) : string * string :=
   match s with
-  | EmptyString => (acc, EmptyString)
-  | String ch r => if Ascii.eqb ch c then (acc, r) else split_first c r (acc ++ String ch EmptyString)
+  | EmptyString => (EmptyString, EmptyString)
+  | String ch r => if Ascii.eqb ch c then (EmptyString, r)
+                   else let (a, b) := split_first c r in (String ch a, b)
   end.
 
 Fixpoint table_of_fields (fs : list string) : table :=
   match fs with
   | [] => []
   | f :: r => if Ascii.eqb (field_tag f) "M"%char then
-                let (name, src) := split_first "="%char (field_body f) EmptyString in
+                let (name, src) := split_first "="%char (field_body f) in
                 (name, parse_code src) :: table_of_fields r
               else table_of_fields r
   end.
